@@ -37,12 +37,13 @@ def to_data(locs):
 
 
 class Summary(object):
-    __slots__ = ('writes', 'frees', 'rets', 'callees', 'dwrites', 'greads', 'escapes', 'dreads')
+    __slots__ = ('writes', 'frees', 'rets', 'callees', 'dwrites', 'greads', 'escapes', 'dreads', 'pstores')
 
     def __init__(self):
         self.writes = {}   # loc -> site text  (roots ('p',i) / ('g',name) / ('unk',''))
         self.dwrites = {}  # direct writes only (not through callees with bodies)
         self.dreads = {}   # global root -> site, direct reads
+        self.pstores = {}  # param index -> set of locs: pointer values stored into the memory that parameter points to
         self.frees = {}
         self.rets = set()
         self.callees = set()
@@ -51,7 +52,7 @@ class Summary(object):
 
     def key(self):
         return (frozenset(self.writes), frozenset(self.frees), frozenset(self.rets), frozenset(self.greads),
-                frozenset(self.escapes))
+                frozenset(self.escapes), frozenset((k, frozenset(v)) for k, v in self.pstores.items()))
 
 
 class Effects(object):
@@ -119,6 +120,7 @@ class _FuncAnalysis(object):
         self.ids = E.local_ids[id(f)]
         self.S = Summary()
         self.env = {}
+        self.pst = {}
         for i, p in enumerate(f.params):
             if type_is_pointer(p.type) or (p.dtype and type_is_pointer(p.dtype)):
                 self.env[p.id] = frozenset([(('p', i), HDR)])
@@ -202,7 +204,13 @@ class _FuncAnalysis(object):
         base = self._local_base(lv)
         if base is not None:
             return self.env.get(base, frozenset())
-        return to_data(self.lv(lv))
+        locs = self.lv(lv)
+        res = to_data(locs)
+        # pointers this function itself stored into the memory a parameter points to (out-parameter arrays)
+        for (r, p) in locs:
+            if r[0] == 'p' and r[1] in self.pst:
+                res |= frozenset(self.pst[r[1]])
+        return res
 
     def _local_base(self, lv):
         """If lvalue is var, var[i], var.f, var[i].f ... of a *local* variable, return its decl id."""
@@ -307,6 +315,13 @@ class _FuncAnalysis(object):
         locs = self.lv(lhs)
         self.write(locs, site)
         if rhs_pts:
+            for (lr, _lp) in locs:
+                if lr[0] == 'p':
+                    vals = set(l for l in rhs_pts if l[0][0] in ('fresh', 'g', 'p'))
+                    self.S.pstores.setdefault(lr[1], set()).update(vals)
+                    if vals - self.pst.get(lr[1], set()):
+                        self.pst.setdefault(lr[1], set()).update(vals)
+                        self.changed = True
             for (r, p) in rhs_pts:
                 if r[0] in ('p', 'g') and any(lr[0] != 'local' for (lr, _lp) in locs):
                     self.S.escapes.setdefault((r, p), site)
@@ -339,6 +354,23 @@ class _FuncAnalysis(object):
         if callee is not None and callee.body is not None:
             S = self.E.sum[id(callee)]
             self.apply_summary(S, argp, site, name)
+            # out-parameters: pointers the callee stores into memory the argument points to (local arrays/variables)
+            for pi, stored in S.pstores.items():
+                if pi >= len(argp):
+                    continue
+                mapped = frozenset()
+                for (r, p) in stored:
+                    mapped |= self.map_loc(r, p, argp)
+                if not mapped:
+                    continue
+                for (r, p) in argp[pi]:
+                    if r[0] == 'local':
+                        old_ = self.env.get(r[1], frozenset())
+                        if mapped - old_:
+                            self.env[r[1]] = old_ | mapped
+                            self.changed = True
+                    elif r[0] == 'p':
+                        self.S.pstores.setdefault(r[1], set()).update(mapped)
             ret = frozenset()
             for (r, p) in S.rets:
                 ret |= self.map_loc(r, p, argp)
